@@ -94,6 +94,8 @@ def parts_of(s, activation):
     from periodictable import core
     parts = []
     for el, frac in s.formula.mass_fraction.items():
+        if core.ision(el):
+            el = el.element
         if core.isisotope(el):
             parts.append((frac, [(el.number, el.isotope, None)]))
         else:
